@@ -12,9 +12,24 @@ C10 driver.  Kind `tcp` (stream proxy sessions on real sockets): see `Drive/C10T
   3. a finished exchange has given everything back: retries = ar, requests = aq, upstream gauge 0 — `quiescent_zero`
   4. with the retry limit already reached by the others (mr > 0, ar ≥ mr) no second attempt is made — `limit_trips`, `retry_admission`
   5. unlimited resources (threshold 0) are not counted at all                                 — `ledger_exact`
+  6. a retry is refused for overflow only when the retries breaker is at its limit through OTHER requests: when the ambient
+     load does not reach the limit (mr = 0 or ar < mr) and no pool overflow / overflow reset occurred in the history, the
+     access log carries no UpstreamOverflow flag (0x80, written down from the api documentation) — the request's own previous
+     retry slot never blocks its next retry                                                      — `retry_admission`
 -/
 namespace MosnVerif.Drive.C10
 open MosnVerif.Drive MosnVerif.Drive.Downstream MosnVerif.Model.Downstream
+
+def logFlags (t : List Ev) : Nat := (t.findSome? (fun e => match e with | .log _ f => some f | _ => none)).getD 0
+
+/-- something in the history other than the retries breaker can raise the overflow flag: a pool refusal for overflow
+(scripted `PFo`, or the requests breaker: thresholds `mq`), an upstream reset with the overflow reason -/
+def overflowSource (cs : Case) (t : List Ev) : Bool :=
+  t.any (fun e => match e with | .uf _ .overflow => true | _ => false)
+  || cs.sched.any (fun l => match l with
+      | .upReset _ r => r.name == "StreamOverflow"
+      | .poolFail .overflow => true
+      | _ => false)
 
 def spec (cs : Case) (i : Impl) : Bool :=
   match implTrace i with
@@ -28,13 +43,14 @@ def spec (cs : Case) (i : Impl) : Bool :=
     && (!(cs.cfg.maxRetries > 0 && cs.ar ≥ cs.cfg.maxRetries) || (t.filter isAttempt).length ≤ 1)
     && (cs.cfg.maxRetries != 0 || i.ret == ar)
     && (cs.cfg.maxRequests != 0 || i.req == aq)
+    && (!(cs.cfg.maxRetries == 0 || cs.ar < cs.cfg.maxRetries) || overflowSource cs t || logFlags t &&& 0x80 == 0)
 
 def run (caseToks impl : List String) : String :=
   if caseToks.head? == some "mc" then DownstreamMC.run caseToks else
   if caseToks.head? == some "tcp" then C10Tcp.run caseToks impl else
   match parseCase caseToks, parseImpl impl with
   | some cs, some i =>
-    let out := render (modelOut cs)
+    let out := renderOut cs
     let agree := out == joinWith " " impl
     s!"{if agree then "A" else "D"} {if spec cs i then "S" else "V"} {out}"
   | _, _ => "E E bad-case"
